@@ -14,6 +14,9 @@ type JunkCfg struct {
 	Binary     bool
 	// MixedEOL: now and then a line ends with the other terminator (LF in a CRLF text and vice versa).
 	MixedEOL bool
+	// StrayCR: in CRLF text, now and then a line that consists of one carriage return ("\r\r\n": not a blank line -
+	// one terminator is stripped, a CR remains) or that ends with a CR before its terminator.
+	StrayCR bool
 }
 
 var logWords = []string{"INFO", "WARN", "error:", "server", "started", "listening on :8080", "request", "id=42", "panic:", "runtime error: index out of range [5] with length 3",
@@ -73,6 +76,13 @@ func JunkLine(r *core.Rand, cfg *JunkCfg) string {
 func Junk(r *core.Rand, cfg *JunkCfg, n int, eol string) string {
 	var b strings.Builder
 	for i := 0; i < n; i++ {
+		if cfg.StrayCR && eol == "\r\n" && r.Chance(1, 5) {
+			if r.Bool() {
+				b.WriteString("\r" + eol)
+			} else {
+				b.WriteString("progress 50%\r" + eol)
+			}
+		}
 		b.WriteString(JunkLine(r, cfg))
 		if cfg.MixedEOL && r.Chance(1, 4) {
 			if eol == "\n" {
